@@ -12,6 +12,7 @@ import (
 	"os"
 	"path/filepath"
 	"runtime"
+	"runtime/pprof"
 	"sort"
 	"strconv"
 	"strings"
@@ -125,6 +126,15 @@ func main() {
 			cfg.verbose = true
 		case a == "--dump-queries":
 			cfg.dumpQueries = true
+		case a == "--cpuprofile" && i+1 < len(os.Args):
+			f, _ := os.Create(os.Args[i+1])
+			pprof.StartCPUProfile(f)
+			defer pprof.StopCPUProfile()
+			i++
+		case a == "--max-paths" && i+1 < len(os.Args):
+			mp, _ := strconv.Atoi(os.Args[i+1])
+			maxPathsFlag = int64(mp)
+			i++
 		case a == "--no-native":
 			cfg.noNative = true
 		case a == "--workers" && i+1 < len(os.Args):
@@ -138,6 +148,9 @@ func main() {
 		cfg.unwind, cfg.maxPieces, cfg.capFast, cfg.capFastImportant, cfg.capSlow = 64, 24, 10000, 20000, 180000
 		cfg.maxPaths, cfg.witnessMax, cfg.diff = 4000000, 1500, true
 		cfg.maxSteps = 20000000
+	}
+	if maxPathsFlag > 0 {
+		cfg.maxPaths = maxPathsFlag
 	}
 	scratch, err := os.MkdirTemp("", "verif.")
 	if err != nil {
@@ -175,8 +188,11 @@ func main() {
 			fmt.Fprintln(os.Stderr, "unknown command", os.Args[1])
 		}
 	}()
+	pprof.StopCPUProfile()
 	os.Exit(code)
 }
+
+var maxPathsFlag int64
 
 func loadProps(verif string) (map[string]*PropDef, error) {
 	b, err := os.ReadFile(filepath.Join(verif, "props.json"))
@@ -204,6 +220,8 @@ func doRun(cfg *Config, fn string, params map[string]int) int {
 	fmt.Printf("paths=%d completed=%d infeasible=%d panics=%d unsupported=%d outside=%d decisions=%d smt=%d syntactic=%d cache=%d/%d wall=%.1fs witnesses ok=%d bad=%d\n",
 		eng.stats.paths, eng.stats.completed, eng.stats.infeasible, eng.stats.panics, eng.stats.unsupported, eng.stats.outside,
 		eng.stats.decisions, eng.stats.smtQueries, eng.stats.syntactic, gCache.hits, gCache.hits+gCache.misses, time.Since(t0).Seconds(), ok, len(bad))
+	fmt.Printf("solver: z3new q=%d t=%.1fs unk=%d | cvc5 q=%d t=%.1fs unk=%d | z3old q=%d t=%.1fs unk=%d | steps=%d\n", gStats.queries[0], float64(gStats.timeNs[0])/1e9, gStats.unknown[0],
+		gStats.queries[1], float64(gStats.timeNs[1])/1e9, gStats.unknown[1], gStats.queries[2], float64(gStats.timeNs[2])/1e9, gStats.unknown[2], eng.stats.steps)
 	for _, m := range h.incon {
 		fmt.Println("INCONCLUSIVE:", m)
 	}
